@@ -69,6 +69,80 @@ pub mod pure {
         (answer, records.iter().map(|r| r.verif_successor_safe()).collect())
     }
 
+    /// H13: run get_for_record / insert_for_record / remove_for_record / record_entry (and the
+    /// untagged public calls) of a fresh ClockCache against real Records. Ops are
+    /// (code, a, b, c): 0 new record (key a, value b, timestamp c) -> its number (from 1);
+    /// 1 refcount := 0 of record a; 2 drop the Arc of record a; 3 get_for_record(key a, record b);
+    /// 4 insert_for_record(key a, value b, record c); 5 remove_for_record(key a, record b);
+    /// 6 record_entry(key a, record b).value(); 7 record_entry(key a, record b).remove();
+    /// 8 get(key a); 9 insert(key a, value b); 10 remove(key a).
+    pub fn cache_gen_sim(ops: &[(u8, u64, u64, u64)]) -> Vec<Option<u64>> {
+        use crate::core::cache::ClockCache;
+        use crate::core::record::Record;
+        use crate::stats::Statistics;
+        use bytes::Bytes;
+        use std::sync::atomic::Ordering;
+        use std::sync::Arc;
+        let key = |k: u64| format!("ck{k}").into_bytes();
+        let val = |v: u64| Bytes::copy_from_slice(&v.to_le_bytes());
+        let num = |b: Bytes| u64::from_le_bytes(b[..8].try_into().unwrap());
+        let cache = ClockCache::new(Arc::new(Statistics::new()));
+        let mut records: Vec<Option<Arc<Record>>> = Vec::new();
+        let mut out = Vec::with_capacity(ops.len());
+        for &(code, a, b, c) in ops {
+            let rec = |n: u64| records.get((n as usize).wrapping_sub(1)).and_then(|r| r.clone());
+            let result = match code {
+                0 => {
+                    records.push(Some(Arc::new(Record::new(key(a), b.to_le_bytes().to_vec(), c))));
+                    Some(records.len() as u64)
+                }
+                1 => {
+                    if let Some(r) = rec(a) {
+                        r.refcount.store(0, Ordering::Release);
+                    }
+                    None
+                }
+                2 => {
+                    if let Some(slot) = records.get_mut((a as usize).wrapping_sub(1)) {
+                        *slot = None;
+                    }
+                    None
+                }
+                3 => rec(b).and_then(|r| cache.get_for_record(&key(a), &r)).map(num),
+                4 => {
+                    if let Some(r) = rec(c) {
+                        cache.insert_for_record(key(a), val(b), &r);
+                    }
+                    None
+                }
+                5 => {
+                    if let Some(r) = rec(b) {
+                        cache.remove_for_record(&key(a), &r);
+                    }
+                    None
+                }
+                6 => rec(b).and_then(|r| cache.record_entry(&key(a), &r).value()).map(num),
+                7 => {
+                    if let Some(r) = rec(b) {
+                        cache.record_entry(&key(a), &r).remove();
+                    }
+                    None
+                }
+                8 => cache.get(&key(a)).map(num),
+                9 => {
+                    cache.insert(key(a), val(b));
+                    None
+                }
+                _ => {
+                    cache.remove(&key(a));
+                    None
+                }
+            };
+            out.push(result);
+        }
+        out
+    }
+
     pub fn metadata_generation(metadata: &crate::storage::metadata::Metadata) -> u64 {
         metadata.generation()
     }
